@@ -138,7 +138,17 @@ E2EClause(e) ==
   ELSE Only({ E2EJudge(e, L, keep, drop) :
               L \in {Linearise(e.m)}, keep \in {Keep(e.m, e.layout)}, drop \in {Dropped(e.m, e.layout)} })
 
+\* the default GN solver on an ill-scaled, full-rank, consistent linear system: norm-wise forward error (eps units) of the
+\* parameter change against the exact least-squares solution; a backward-stable least-squares solve is within a small multiple
+\* of cond(A) eps, a solve through the normal equations (cond^2, rank truncation) is off by O(1) = 1/eps units
+ScaledClause(e) ==
+  IF e.out = "raise" THEN "default_solver_raised"
+  ELSE IF ~e.finite THEN "nonfinite"
+  ELSE IF e.err > 64 * e.cond THEN "gn_default_not_least_squares"
+  ELSE "ok"
+
 Clause(e) == CASE e.act = "step"  -> StepClause(e)
+               [] e.act = "e2e_scaled" -> ScaledClause(e)
                [] e.act = "first" -> FirstClause(e)
                [] e.act = "e2e"   -> E2EClause(e)
                [] OTHER -> "unknown_event"
